@@ -58,14 +58,13 @@ rfbTranslateWithSingleTable24to24 (char *table, rfbPixelFormat *in,
     int ipextra = bytesBetweenInputLines - width * 3;
     uint8_t *opLineEnd;
     uint8_t *t = (uint8_t *)table;
-    int shift = rfbEndianTest?0:8;
     uint8_t c;
 
     while (height > 0) {
         opLineEnd = op + width*3;
 
         while (op < opLineEnd) {
-	    *(uint32_t*)op = t[((*(uint32_t *)ip)>>shift)&0x00ffffff];
+	    *(uint32_t*)op = t[RFB_GET24(ip)];
 	    if(!rfbEndianTest)
 	      memmove(op,op+1,3);
 	    if (out->bigEndian != in->bigEndian) {
@@ -100,13 +99,12 @@ rfbTranslateWithRGBTables24to24 (char *table, rfbPixelFormat *in,
     uint8_t *greenTable = redTable + 3*(in->redMax + 1);
     uint8_t *blueTable = greenTable + 3*(in->greenMax + 1);
     uint32_t outValue,inValue;
-    int shift = rfbEndianTest?0:8;
 
     while (height > 0) {
         opLineEnd = op+3*width;
 
         while (op < opLineEnd) {
-	    inValue = ((*(uint32_t *)ip)>>shift)&0x00ffffff;
+	    inValue = RFB_GET24(ip);
             outValue = (redTable[(inValue >> in->redShift) & in->redMax] |
                        greenTable[(inValue >> in->greenShift) & in->greenMax] |
                        blueTable[(inValue >> in->blueShift) & in->blueMax]);
@@ -149,13 +147,12 @@ rfbTranslateWithSingleTable24toOUT (char *table, rfbPixelFormat *in,
     int ipextra = bytesBetweenInputLines - width*3;
     OUT_T *opLineEnd;
     OUT_T *t = (OUT_T *)table;
-    int shift = rfbEndianTest?0:8;
 
     while (height > 0) {
         opLineEnd = op + width;
 
         while (op < opLineEnd) {
-            *(op++) = t[((*(uint32_t *)ip)>>shift)&0x00ffffff];
+            *(op++) = t[RFB_GET24(ip)];
 	    ip+=3;
         }
 
@@ -185,13 +182,12 @@ rfbTranslateWithRGBTables24toOUT (char *table, rfbPixelFormat *in,
     OUT_T *greenTable = redTable + in->redMax + 1;
     OUT_T *blueTable = greenTable + in->greenMax + 1;
     uint32_t inValue;
-    int shift = rfbEndianTest?0:8;
 
     while (height > 0) {
         opLineEnd = &op[width];
 
         while (op < opLineEnd) {
-	    inValue = ((*(uint32_t *)ip)>>shift)&0x00ffffff;
+	    inValue = RFB_GET24(ip);
             *(op++) = (redTable[(inValue >> in->redShift) & in->redMax] |
                        greenTable[(inValue >> in->greenShift) & in->greenMax] |
                        blueTable[(inValue >> in->blueShift) & in->blueMax]);
